@@ -485,9 +485,9 @@ theorem matchInputs_spec (E : Env) (rec : NPId → NodeId → Stack → R) (hrec
             exact satV_mono h2.toALe (s1 ht').2
           · exact (h4 ht2).2.2 v' vp' hm
 
-theorem bindOutputs_spec (p : GPat) (np : NPId) (gouts : List ValueId) :
+theorem bindOutputs_spec (fix : Bool) (p : GPat) (np : NPId) (gouts : List ValueId) :
     ∀ (rest : List (Option String)) (i : Nat) (c : Partial) (r : R),
-      bindOutputs p np gouts rest i [c] = r → i + rest.length ≤ gouts.length →
+      bindOutputs fix p np gouts rest i [c] = r → (fix = true ∨ i + rest.length ≤ gouts.length) →
       ∃ c', Res c r c' ∧ Ext c c' ∧
         (r.1 = true → ∀ j, i ≤ j → j < i + rest.length →
           ∃ x, gouts[j]? = some x ∧ (assignOf c').boundTo p (.out np j) (some x)) := by
@@ -504,9 +504,14 @@ theorem bindOutputs_spec (p : GPat) (np : NPId) (gouts : List ValueId) :
     simp only [List.length_cons] at hlen
     split at hr
     · next hnone =>
-      have : i < gouts.length := by omega
-      simp at hnone
-      omega
+      rcases hlen with hfix | hlen
+      · subst hfix
+        simp only [if_true] at hr
+        subst hr
+        exact ⟨_, Res.failed c, ext_failed c, fun h => by simp [fail_single] at h⟩
+      · have : i < gouts.length := by omega
+        simp at hnone
+        omega
     · next x hx =>
       dsimp only at hr
       obtain ⟨c1, r1, e1, b1⟩ := bindValue_spec p c (.out np i) (some x)
@@ -518,7 +523,7 @@ theorem bindOutputs_spec (p : GPat) (np : NPId) (gouts : List ValueId) :
       · next ht =>
         have ht' : (bindValue p [c] (.out np i) (some x)).1 = true := by simpa using ht
         rw [r1.st] at hr
-        obtain ⟨c', h1, h2, h3⟩ := ih (i + 1) c1 r hr (by omega)
+        obtain ⟨c', h1, h2, h3⟩ := ih (i + 1) c1 r hr (by rcases hlen with h | h; exact .inl h; exact .inr (by omega))
         refine ⟨c', r1.chain h1 ht', e1.trans h2, fun ht2 j hj1 hj2 => ?_⟩
         by_cases hji : j = i
         · subst hji
@@ -581,7 +586,7 @@ theorem noOr_input {p : GPat} (h : p.noOr = true) {np : NPId} {Pn : NPat} (hP : 
   exact h1 (some vp) hm
 
 theorem nodeStep_spec (E : Env) (rec : NPId → NodeId → Stack → R) (hrec : NodeSpec E rec)
-    (hno : E.p.noOr = true) (htopo : E.p.topo) (har : OutputArityOk E.p E.g) :
+    (hno : E.p.noOr = true) (htopo : E.p.topo) (har : E.fixF1 = true ∨ OutputArityOk E.p E.g) :
     NodeSpec E (nodeStep E (matchValue E rec)) := by
   intro np n c P r hr hinv hlt hnb
   unfold nodeStep at hr
@@ -672,10 +677,12 @@ theorem nodeStep_spec (E : Env) (rec : NPId → NodeId → Stack → R) (hrec : 
             have ht3' : (matchInputs (matchValue E rec) (zipPad N.inputs Pn.inputs) [c2]).1 = true := by
               simpa using ht3
             rw [r3.st] at hr
-            have harity : 0 + Pn.outputs.length ≤ N.outputs.length := by
-              have := har Pn (List.mem_of_getElem? hP) N (List.mem_of_getElem? hN) (a1 ht').1 (a1 ht').2.1
-              omega
-            obtain ⟨c4, r4, e4, b4⟩ := bindOutputs_spec E.p np N.outputs Pn.outputs 0 c3 r hr harity
+            have harity : E.fixF1 = true ∨ 0 + Pn.outputs.length ≤ N.outputs.length := by
+              rcases har with h | har
+              · exact .inl h
+              · have := har Pn (List.mem_of_getElem? hP) N (List.mem_of_getElem? hN) (a1 ht').1 (a1 ht').2.1
+                exact .inr (by omega)
+            obtain ⟨c4, r4, e4, b4⟩ := bindOutputs_spec E.fixF1 E.p np N.outputs Pn.outputs 0 c3 r hr harity
             have okc2 : c2.ok = c.ok := r1.okT ht'
             have l14 : Le c1 c4 := (l12.trans l3).trans e4.le
             refine ⟨c4, ⟨r4.st, fun h => ((r4.okT h).trans (r3.okT ht3')).trans okc2, r4.okF⟩,
@@ -712,7 +719,7 @@ theorem nodeStep_spec (E : Env) (rec : NPId → NodeId → Stack → R) (hrec : 
       exact ⟨_, Res.failed c, (ext_failed c).le, hnb.ext (ext_failed c), fun h => by simp [fail_single] at h⟩
 
 theorem matchNode_spec (E : Env) (hno : E.p.noOr = true) (htopo : E.p.topo)
-    (har : OutputArityOk E.p E.g) : ∀ f, NodeSpec E (matchNode E f)
+    (har : E.fixF1 = true ∨ OutputArityOk E.p E.g) : ∀ f, NodeSpec E (matchNode E f)
   | 0 => by
     intro np n c P r hr hinv _ hnb
     unfold matchNode at hr
@@ -726,7 +733,7 @@ theorem matchNode_spec (E : Env) (hno : E.p.noOr = true) (htopo : E.p.topo)
     exact this np n c P r hr
 
 theorem matchOutputNodes_spec (E : Env) (hno : E.p.noOr = true) (htopo : E.p.topo)
-    (har : OutputArityOk E.p E.g) :
+    (har : E.fixF1 = true ∨ OutputArityOk E.p E.g) :
     ∀ (l : List (NPId × NodeId)) (c : Partial) (r : R),
       matchOutputNodes E l [c] = r → Inv E c [] → NB c →
       ∃ c', Res c r c' ∧ Le c c' ∧ NB c' ∧
